@@ -430,6 +430,16 @@ Section CQRS.
       A command / event processor's router handler holds exactly one cqrs handler. *)
   Context (eqbV : V -> V -> bool).
   Definition call_eqb (a b : N * V) : bool := N.eqb (fst a) (fst b) && eqbV (snd a) (snd b).
+  (** an OnHandle hook runs only when configured, and is given the message's name, a registered
+      handler whose type name matches and the payload decoded into that handler's type *)
+  Definition onhandle_ok (oh : onhandle) (msg : wmsg) (hs : list (handler * hscript)) (tr : list pevent) : bool :=
+    forallb (fun e => match e with
+                      | POnHandle hid n v _ _ =>
+                          match oh with OhNil => false | _ => true end
+                          && N.eqb n (name_from msg)
+                          && existsb (fun hb => N.eqb (h_id (fst hb)) hid && matches msg (fst hb)
+                                                && option_eqb eqbV (unmarshal msg (h_ty (fst hb))) (Some v)) hs
+                      | _ => true end) tr.
   Definition c15_monitor (cfg : pcfg) (msg : wmsg) (d : delivery)
              (tr : list pevent) (rtr : list (hevent nomsg)) (final : settle) : bool :=
     let k := d_kind d in let hs := d_hs d in
@@ -437,6 +447,7 @@ Section CQRS.
     list_eqb call_eqb (calls tr) (expected_calls (pc_onhandle cfg) msg ms)
     && settle_eqb final (expected_settle k cfg msg hs)
     && ctx_ok msg tr
+    && onhandle_ok (pc_onhandle cfg) msg hs tr
     && Nat.eqb (count_settles rtr) 1
     && Nat.eqb (count_calls rtr) 1
     && match publishes rtr with [] => true | _ => false end.
